@@ -40,7 +40,8 @@ fn epoch_string() -> BoxedStrategy<String> {
 fn strat(_t: Tier) -> BoxedStrategy<Case> {
   (
     bytes(300),
-    prop_oneof![1 => Just(0u32), 2 => Just(1u32), 6 => 2u32..9, 2 => 9u32..41],
+    // incl. thresholds whose low byte sits at a byte / base64-sextet boundary
+    prop_oneof![10 => Just(0u32), 20 => Just(1u32), 60 => 2u32..9, 20 => 9u32..41, 2 => prop_oneof![Just(62u32), Just(63u32), Just(64u32), Just(127u32), Just(128u32), Just(248u32), Just(252u32), Just(255u32), Just(256u32)]],
     epoch_string(),
     -2i8..4,
     vec((any::<u16>(), any::<u16>()), 0..3),
@@ -96,7 +97,8 @@ fn oracle(c: &Case, st: &mut Stats) -> Result<(), String> {
     0 => "t=0",
     1 => "t=1",
     2..=8 => "t=2-8",
-    _ => "t>=9",
+    9..=41 => "t=9-41",
+    _ => "t=byte-boundary",
   });
   st.class(if c.epoch.is_empty() { "epoch=empty" } else if c.epoch.is_ascii() { "epoch=ascii" } else { "epoch=non-ascii" });
   let first = create(&c.m, t, &c.epoch)?;
